@@ -242,9 +242,22 @@ CLAIMS = [
                 'Crystals scores from a small grid. Trusted: seeded numpy generators are deterministic.',
         'design_ref': 'DESIGN.md section 4 C17',
     },
+    {
+        'property_id': 'C18',
+        'level': 'exploration',
+        'technique': 'bounded stand-in for contract-based verification: the postconditions of the statement attached to the real '
+                     'compute_keypoints and evaluated on a complete small domain of arrays, weights and options',
+        'text': 'Labelled bounded, never counted as proved: compute_keypoints / _weighted_quantile are numpy-internal and return '
+                'arrays of data-dependent length; no contract within reach decides the property for all arrays. Every array in '
+                '{0..3}^n (n <= 4/5) x weights x clip bounds x default x num_keypoints x modes x reductions is evaluated with all '
+                'postconditions; helpers on small data sets. One genuine defect repaired (np.quantile keyword), one known finding '
+                '(zero example weights at the extremes).',
+        'note': 'Bounded enumeration; trusted: numpy. Empty data (all values equal to the default) excluded.',
+        'design_ref': 'DESIGN.md section 4 C18',
+    },
 ]
 
 _PENDING = 'check not built yet in this session (planned, see DESIGN.md section 4); not claimed until its check exists'
 NOT_APPLICABLE = [
-    {'property_id': 'C%02d' % i, 'reason': _PENDING} for i in range(2, 21) if i not in (2, 4, 5, 6, 7, 8, 9, 10, 12, 13, 14, 15, 16, 17, 19, 20)
+    {'property_id': 'C%02d' % i, 'reason': _PENDING} for i in range(2, 21) if i not in (2, 4, 5, 6, 7, 8, 9, 10, 12, 13, 14, 15, 16, 17, 18, 19, 20)
 ]
